@@ -171,9 +171,17 @@ impl IndexEntry {
 
     // src/index/entry.rs IndexEntry::mtime — verified in unit `timeconv` (its no-panic obligation lives there);
     // here only: the Timestamp denotes the recorded instant.
+    // The recorded pair denotes a representable instant (what every backup writes: nanos below one second, instant
+    // inside jiff's range -377705023201 s ..= 253402207200 s).  For other DECODED values (a damaged index) the real
+    // function falls back to the Unix epoch instead of panicking, so the clause below is conditional (link F3).
+    spec fn time_wf(&self) -> bool {
+        self.mtime_nanos < 1_000_000_000
+            && -377705023201int * 1_000_000_000 <= self.instant() <= 253402207200int * 1_000_000_000 + 999_999_999
+    }
+
     #[verifier::external_body]
     fn mtime(&self) -> (r: Timestamp)
-        ensures r.instant() == self.instant(),
+        ensures self.time_wf() ==> r.instant() == self.instant(),
     { unimplemented!() }
 
     // `self.target.as_deref()` (Option<String> -> Option<&str>)
